@@ -1129,7 +1129,7 @@ class Engine(Interp):
         """-> list of (kind, state)"""
         h = v[0]
         if h in ('moved', 'int', 'bool', 'boolc', 'boolu', 'ref', 'slen', 'sliceit', 'closure', 'fn', 'rawslot', 'rawbase', 'mu_copy',
-                 'oarr', 'oslice', 'opqit', 'mu_uninit', 'uninit_arr'):
+                 'oarr', 'oslice', 'opqit', 'mu_uninit', 'uninit_arr', 'arr_of'):
             if h == 'closure':
                 return self.drop_fields(st, list(v[2]), eff, depth)
             if h in ('oarr', 'oslice') and eff.get('user'):
